@@ -34,6 +34,8 @@ def validate_bytes(ctx, data, what, case, tag):
             ctx.label("mixed-local-types")
         if any(not ft.results for ft in m.types):
             ctx.label("void-result")
+        if any(b.size >= 128 for b in m.codes):
+            ctx.label("body>=128-bytes")
     if not ok:
         ctx.fail("invalid|%s|%s" % (tag, msg.split(":")[0][:40]), "emitted module is not valid: %s\n%s\nbytes=%s" % (
             msg, what, bytes(data).hex()), case)
@@ -68,7 +70,8 @@ _fn = st.fixed_dictionaries({
     "params": st.lists(_vt, max_size=3),
     "result": st.one_of(st.none(), _vt),
     "locals": st.lists(_vt, min_size=1, max_size=6),
-    "moves": st.lists(st.tuples(st.integers(0, 50), st.integers(0, 50)), max_size=8),
+    "moves": st.one_of(st.lists(st.tuples(st.integers(0, 50), st.integers(0, 50)), max_size=8),
+                       st.lists(st.tuples(st.integers(0, 50), st.integers(0, 50)), min_size=24, max_size=90)),
     "name": st.text(min_size=1, max_size=8, alphabet="abcxyz_é0"),
 })
 _mod = st.lists(_fn, min_size=1, max_size=4, unique_by=lambda f: f["name"])
@@ -128,5 +131,5 @@ def run(R):
     R.hyp("near-miss", genwasm.nearmiss_case(n_inputs=0), program_case, examples=R.pick(60, 1000))
     R.hyp("all-generators", allgen.any_case(n_inputs=0), program_case, examples=R.pick(60, 1500))
     R.hyp("writer-api", _mod, api_case, examples=R.pick(150, 3000))
-    for l in ("emitted:subset", "emitted:api", "mixed-local-types", "void-result", "functions:2"):
+    for l in ("emitted:subset", "emitted:api", "mixed-local-types", "void-result", "functions:2", "body>=128-bytes"):
         R.require(l)
